@@ -25,6 +25,8 @@ def parse_obs(obs):
     p = obs.split("\t")
     if p[0] != "OK":
         return {"cls": p[0].split()[0] if p[0] else "MISSING"}
+    if len(p) < 6:
+        return {"cls": "CRASH"}       # a line cut short by a dying tool
     d = {"cls": "OK", "n": int(p[1]), "B": p[2], "N": p[3], "S": p[4].split(" ") if p[4] else [], "RT": p[5] if len(p) > 5 else ""}
     for x in p[6:]:
         if x.startswith("WF="):
@@ -70,6 +72,22 @@ def laws(d, meta):
     return bad
 
 
+def run_capped(tool, sub, cases, max_crashes=3, chunk=20, timeout=1500):
+    """run_tool in chunks; after `max_crashes` crashing / hanging cases the rest is skipped (a tree in
+    which EqualType overflows the stack on many inputs would otherwise cost ~10 s per case)"""
+    res, crashes = {}, 0
+    for k in range(0, len(cases), chunk):
+        part = cases[k:k + chunk]
+        r = S.run_tool(tool, sub, part, timeout=timeout)
+        res.update(r)
+        crashes += sum(1 for i, _, _ in part if r.get(i, "MISSING").split("\t")[0].split(" ")[0] in ("CRASH", "HANG", "PANIC", "MISSING"))
+        if crashes >= max_crashes:
+            for i, _, _ in cases[k + chunk:]:
+                res[i] = "SKIPPED"
+            break
+    return res
+
+
 def shrink_case(b, text, pred):
     """drop definition lines while `pred(text)` stays true"""
     def still(x):
@@ -86,17 +104,17 @@ def one(b, tool, text, sub="eq"):
 
 
 def run(b, ps, tier, seed):
-    n_cases, pool_max, env_size = (220, 12, 6) if tier == "quick" else (6000, 30, 10)
+    n_cases, pool_max, env_size = (220, 12, 6) if tier == "quick" else (3000, 30, 10)
     stream = list(G.stream(seed, n_cases, pool_max, env_size))
     cases = [(i, k, t) for i, k, t, _ in stream]
     metas = {i: m for i, _, _, m in stream}
     violations = []
     t0 = time.time()
     impl, model, mism = {}, {}, []
+    if not b.probe_error:
+        impl = run_capped(b.probe, "eq", cases)
     if not b.probe_error and not b.model_error:
-        impl, model, mism = S.correspond(b, "eq", cases, project=lambda s: s, timeout=1500)
-    elif not b.probe_error:
-        impl = S.run_tool(b.probe, "eq", cases, timeout=1500)
+        model = run_capped(b.model, "eq", cases)
     dt = time.time() - t0
     stats = {"accepted": 0, "rejected": 0, "parse_err": 0, "pairs": 0, "equal_bits": 0, "wf_false": 0,
              "law_checks": 0, "by_construction_pairs": 0, "near_miss_pairs": 0, "near_miss_equal": 0}
@@ -107,6 +125,9 @@ def run(b, ps, tier, seed):
     for i, k, t in cases:
         a = parse_obs(impl.get(i, "MISSING")) if impl else {"cls": "MISSING"}
         m = parse_obs(model.get(i, "MISSING")) if model else None
+        if a["cls"] == "SKIPPED":
+            stats["skipped"] = stats.get("skipped", 0) + 1
+            continue
         if a["cls"] in ("HANG", "PANIC", "CRASH", "MISSING"):
             if impl:
                 hang_bad.append((i, k, t, impl.get(i, "MISSING")))
@@ -151,7 +172,7 @@ def run(b, ps, tier, seed):
                             "equal_by_construction": meta["equal"] if meta else None, "near_misses": meta["miss"] if meta else None})
 
     # --- violations -------------------------------------------------------------------------
-    for i, k, t, obs in hang_bad[:3]:
+    for i, k, t, obs in hang_bad[:1]:
         small = shrink_case(b, t, lambda x: parse_obs(one(b, b.probe, x))["cls"] in ("HANG", "PANIC", "CRASH"))
         violations.append(C.Violation(
             "EqualType (or the checks before it) does not return on case %s: %s" % (i, obs[:60]),
